@@ -28,6 +28,8 @@ import (
 	"math/big"
 	"math/rand/v2"
 	"runtime/debug"
+	"sync"
+	"sync/atomic"
 	"testing"
 
 	"gitlab.com/yawning/obfs4.git/common/ntor"
@@ -524,6 +526,69 @@ func (st *decStats) flush(r *mon.Run) {
 
 // ---- the check ---------------------------------------------------------------
 
+// concurrentKeygen: generation is a pure function of (private key, tweak), so
+// results obtained while many goroutines generate keys at once must equal the
+// results of the same calls made one after the other (obfs4proxy generates a
+// key per handshake, concurrently).  The oracle is exact and needs no
+// reference arithmetic.
+func concurrentKeygen(c *mon.Case, r *mon.Run, seed uint64, calls int) {
+	rng := mon.NewRand(seed)
+	const nIn = 256
+	type in struct {
+		priv [32]byte
+		tw   byte
+	}
+	type out struct {
+		ok        bool
+		pub, repr [32]byte
+	}
+	ins := make([]in, nIn)
+	want := make([]out, nIn)
+	for i := range ins {
+		ins[i].priv = rand32(rng)
+		ins[i].tw = byte(rng.Uint32())
+		want[i].ok = ntor.VerifScalarBaseMult(&want[i].pub, &want[i].repr, &ins[i].priv, ins[i].tw)
+	}
+	workers := 16
+	var wg sync.WaitGroup
+	var bad atomic.Int64
+	var firstBad atomic.Int64
+	firstBad.Store(-1)
+	for w := 0; w < workers; w++ {
+		w := w
+		wg.Add(1)
+		go func() {
+			defer wg.Done()
+			for k := 0; k < calls/workers; k++ {
+				i := (k*7 + w*13) % nIn
+				var got out
+				p := ins[i].priv
+				got.ok = ntor.VerifScalarBaseMult(&got.pub, &got.repr, &p, ins[i].tw)
+				if got.ok != want[i].ok || (got.ok && (got.pub != want[i].pub || got.repr != want[i].repr)) {
+					bad.Add(1)
+					firstBad.CompareAndSwap(-1, int64(i))
+				}
+				if got.ok {
+					rp := ntor.Representative(got.repr)
+					if *rp.ToPublic().Bytes() != got.pub {
+						bad.Add(1)
+						firstBad.CompareAndSwap(-1, int64(i))
+					}
+				}
+			}
+		}()
+	}
+	wg.Wait()
+	r.Count("evaluations", int64(calls))
+	r.Count("concurrent_generation_calls", int64(calls))
+	if n := bad.Load(); n > 0 {
+		i := firstBad.Load()
+		c.Violation("concurrent/result-differs-from-sequential", fmt.Sprintf("%d of %d generation calls made concurrently from %d goroutines returned something else than the same call made alone, or a representative that does not decode to the returned public key (first: input %d, priv %x tweak %#x)", n, calls, workers, i, ins[i].priv, ins[i].tw), nil)
+	} else {
+		r.Count("control_concurrent_equals_sequential", 1)
+	}
+}
+
 func TestCheck(t *testing.T) {
 	r := mon.Start(t, "C07")
 	defer r.Finish()
@@ -533,6 +598,15 @@ func TestCheck(t *testing.T) {
 	r.Note("rule", "generation: (a) grid batches: PRNG upper parts x all 8 values of priv[0]&7, each under 4 tweaks (one systematic so that all 256 occur, 3 PRNG) and the first 2 upper parts of every batch under all 256 tweaks; (b) batches of shaped PRNG private keys (uniform / small / sparse / dense / near 2^254, p, 2^255) under 2 PRNG tweaks; (c) ntor.NewKeypair(true) over a seeded crypto/rand.Reader; (d) structured private keys (0..8, all-ones, every single bit, every all-ones-minus-one-bit, byte patterns) x all 8 low-bit values x 8 chosen tweaks (thorough: all 256). decoding: shaped PRNG strings, named edge strings, every representative of low-order / small / PRNG u-coordinates built with the reference inverse map; every string under the four settings of its two top bits. A generation call is one (priv, tweak); non-trivial/distinct = distinct private keys (each under 2..256 tweaks) and distinct 254-bit decode inputs. Coset = index k of the torsion point with pub = u(clamp(priv)*B + k*T8), found by reference Edwards arithmetic.")
 	r.Note("exhaustive_part", "all 256 tweaks for 16 private keys per grid batch and (thorough) for every structured key; all 8 values of priv[0]&7 for every grid upper part and structured pattern; all 256 single-bit and 256 all-ones-minus-one-bit strings as decode inputs and as private keys; all four top-bit settings for every decode input; every representative (<= 4) of each targeted u-coordinate")
 	r.Note("not_demanded", "which of the (up to four) representatives is returned, that it lies in [0,(p-1)/2], what the output buffers hold after a failure, how NewKeypair derives key and tweak from the CSPRNG, any statistical uniformity: reported as obs_* counters only")
+
+	// (0) concurrent generation against sequential results
+	for ci := 0; ci < r.Pick(8, 32); ci++ {
+		ci := ci
+		r.Case(fmt.Sprintf("gen/concurrent/%02d", ci), func(c *mon.Case) {
+			concurrentKeygen(c, r, r.Sub("conc", ci), r.Pick(40000, 200000))
+			r.Distinct("nontrivial", fmt.Sprintf("concurrent/%d", ci))
+		})
+	}
 
 	// (a) grid batches
 	nGrid := r.Pick(4, 64)
